@@ -7,7 +7,7 @@ VERIF = vx.VERIF
 
 # Frames whose failure is a strong hint but not by itself a violation (a new call site of `shared.push` / of the task
 # waker can be paid for by the surrounding code): they become a violation only with a failing history on the real crate.
-SOFT_FRAMES = {"c12.ready_mark_sites", "c14.wrappers_do_not_wake"}
+SOFT_FRAMES = {"c12.ready_mark_sites", "c12.no_poll_outside_loop", "c14.wrappers_do_not_wake"}
 
 
 def load_props():
